@@ -727,9 +727,33 @@ def race_suite(v, prop, op, tier, seed):
     return {"race_rounds": rounds, "race_thread_transcripts_replayed": len(r.cases), "race_bad": bad, "race_tie_mismatches": broken}
 
 
+def oracle_host_untouched(c):
+    """C03 under attack: whatever the attacker did at the boundary, nothing that was never inside the root changed and no
+    descriptor of such an object was handed back."""
+    if c.res[:1] == ["panic"]:
+        return "the operation panicked under an attacker schedule"
+    for t in c.extra.get("host", []):
+        if t and t[0] == "CHANGED":
+            return "an entry whose parent directory was never inside the root changed: " + " ".join(t[1:])
+    for t in c.extra.get("hostfd", []):
+        if t and t[0] == "OUT":
+            return "the operation returned a descriptor of an object that was never inside the root: " + " ".join(t[1:])
+    return None
+
+
 def check_C03(v, tier, seed):
     runs = root_runs("C03", tier, seed, "mutating", 1500, 30000)
     concrete = run_oracle_cases(v, runs, oracle_outside_untouched, "a mutating operation changed something outside the root")
+    # the attacker on the real filesystem: one mutation (entry of the operation's path moved out, replaced by a link to a
+    # host directory or file, exchanged, moved up) performed by the interposer before every system-call boundary of the
+    # operation, permanently or undone one call later; the host side is compared before and after
+    n = sizes(tier, 24, 120)
+    per = sizes(tier, 120, 500)
+    aruns = [Run("C03-attack-mut", ["attack-mut", "--seed", str(seed + 11), "--n", str(n), "--per-case", str(per)]),
+             Run("C03-attack-mut-enosys", ["attack-mut", "--seed", str(seed + 104743), "--n", str(max(n // 2, 18)),
+                                           "--per-case", str(per), "--no-openat2"])]
+    concrete |= run_oracle_cases(v, aruns, oracle_host_untouched, "a mutating operation touched the host under an attacker schedule")
+    runs = runs + aruns
     # every call of a mutating operation names one no-follow component below a descriptor (what C03_*_targets prove of
     # the model): a call that does not is the concrete way out of the root for an attacker who swaps the entry
     ncalls, _ = disc_oracle(v, runs, concrete)
@@ -737,6 +761,14 @@ def check_C03(v, tier, seed):
     cov = coverage_of(runs)
     cov["tie_mismatches"] = broken
     cov["calls_checked_against_Disc"] = ncalls
+    muts = {}
+    for r in aruns:
+        for c in r.cases:
+            a = c.extra.get("attack", [[]])[0]
+            name = next((t for t in a if not t.startswith(("at=", "flip="))), "none")
+            muts[name] = muts.get(name, 0) + 1
+    cov["attacker_schedules"] = sum(len(r.cases) for r in aruns)
+    cov["attacker_mutation_distribution"] = muts
     strace_tie_step(v, "C03", [["root", "--ops", "mutating", "--seed", str(seed + 31), "--n", str(sizes(tier, 150, 2000))],
                                ["root", "--ops", "mutating", "--seed", str(seed + 61), "--n", str(sizes(tier, 100, 1000)), "--unpriv"]], cov)
     return cov
@@ -814,6 +846,11 @@ def check_C11(v, tier, seed):
     # the C API keeps failed calls' error values in its table until pathrs_errorinfo() consumes them: the descriptor
     # table is compared while the error is still pending
     runs.append(Run("C11-capi", ["capi-args"] + (["--thorough"] if tier == "thorough" else [])))
+    # a process started with stdin closed: descriptor 0 is free, so the first descriptor the kernel hands out during each
+    # operation is number 0 (a valid descriptor, which must be wrapped, returned or closed like any other)
+    runs.append(Run("C11-root-fd0", ["root", "--ops", "all", "--seed", str(seed + 15485863), "--n", str(sizes(tier, 300, 4000)), "--fd0-free"]))
+    runs.append(Run("C11-root-fd0-enosys", ["root", "--ops", "all", "--seed", str(seed + 32452843), "--n", str(sizes(tier, 150, 2000)),
+                                            "--fd0-free", "--no-openat2"]))
     # the procfs API too (masked global handle: the ENOENT retry creates and must drop a temporary unmasked handle),
     # reopen, and reopen under single faults
     runs.append(Run("C11-proc-live", ["proc-live", "--seed", str(seed + 59), "--n", str(sizes(tier, 120, 800))]))
@@ -1020,6 +1057,12 @@ def check_C06(v, tier, seed):
             d = res_fd(c)
             visible = c.meta.get("visible") == "1"
             over = c.meta.get("over", "none")
+            # the base of the lookup itself (the /proc/self or /proc/thread-self symlink) is over-mounted
+            base_dst = {"thread_self": "/proc/thread-self", "self": "/proc/self"}.get(c.op[1] if len(c.op) > 1 else "")
+            base_over = bool(base_dst) and layout != "none" and any(i.rsplit("@", 1)[0] == base_dst for i in layout.split(","))
+            if visible and base_over and over == "none":
+                stats["visible_overmounted_base_lookups"] = stats.get("visible_overmounted_base_lookups", 0) + 1
+                over = "base"
             if visible and over != "none":
                 stats["visible_overmounted_lookups"] += 1
                 if c.res[:3] == ["err", "OsError", "18"]:
@@ -1028,6 +1071,9 @@ def check_C06(v, tier, seed):
                 ident = f"{d.get('dev')}:{d.get('ino')}"
                 if ident in overs:
                     msg = f"the over-mounted object {ident} was returned"
+                elif visible and over == "base":
+                    msg = (f"{base_dst} itself is visibly over-mounted, and a lookup below that base succeeded instead of failing "
+                           "with EXDEV")
                 elif visible and over != "none":
                     msg = "lookup of a visibly over-mounted entry succeeded instead of failing with EXDEV"
                 elif c.op[0] == "proc_open" and (d.get("fstype") != PROC_MAGIC or
@@ -1236,6 +1282,21 @@ def oracle_reopen(c):
         elif kref[0] == "err" and c.res[:3] != ["err", "OsError", kref[1]]:
             msg = (f"reopen failed with {' '.join(c.res[:3])}, the kernel's re-open through the magic-link fails with errno {kref[1]} "
                    f"(history: {c.meta.get('history')})")
+    # the same request through pathrs_reopen (the descriptor number crosses the C boundary as an int, 0 included): the same
+    # object with the same flags, or the same errno
+    cres = (c.extra.get("cres") or [None])[0]
+    if not msg and cres and not faulted:
+        if cres[0] == "ok":
+            cd = dict(t.split("=", 1) for t in cres[2:] if "=" in t)
+            if d is None:
+                msg = f"pathrs_reopen succeeded where Handle::reopen failed ({' '.join(c.res[:3])})"
+            elif any(cd.get(k) != d.get(k) for k in ("label", "kind", "fl", "cloexec")):
+                msg = f"pathrs_reopen returned {' '.join(cres[2:])}, Handle::reopen {' '.join(c.res[2:])}"
+        elif d is not None:
+            msg = (f"pathrs_reopen of descriptor number {c.meta.get('fdnum')} failed with errno {cres[1]} where Handle::reopen of the "
+                   f"same descriptor succeeds")
+        elif c.res[:2] == ["err", "OsError"] and c.res[2:3] != [cres[1]]:
+            msg = f"pathrs_reopen failed with errno {cres[1]}, Handle::reopen with {' '.join(c.res[:3])}"
     return msg, same_inode
 
 
